@@ -417,6 +417,20 @@ class LazyEvaluatedKernelTensor(LinearOperator):
         """
         # Process the index
         index = index if isinstance(index, tuple) else (index,)
+        # Negative integers: LinearOperator.__getitem__ turns an int i into slice(i, i + 1), which selects nothing
+        # for i = -1 (and this class disables the size check that would notice). Normalise them first.
+        if any(isinstance(i, int) and not isinstance(i, bool) and i < 0 for i in index):
+            num_explicit = sum(1 for i in index if i is not Ellipsis)
+            new_index, dim = [], 0
+            for i in index:
+                if i is Ellipsis:
+                    dim += self.dim() - num_explicit
+                else:
+                    if isinstance(i, int) and not isinstance(i, bool) and i < 0:
+                        i = i + self.shape[dim]
+                    dim += 1
+                new_index.append(i)
+            index = tuple(new_index)
         # Special case for the most common case: [..., slice, slice]
         if len(index) == 3 and index[0] is Ellipsis and isinstance(index[1], slice) and isinstance(index[2], slice):
             _, row_index, col_index = index
